@@ -31,6 +31,19 @@ CHECKS = {
         "from custom functions, must leave the interpreter rendering the same bytes. Arguments.Get/NumOfArguments/IsSet/ParseInto "
         "are compared with the argument vector of the specification's normal form for piped and slot-placed values.",
    design_ref="DESIGN.md §5 C18", note=EXEC_TRUST),
+ "C02": dict(
+   technique="TLA+ JetStruct (the parser as a push-down acceptor over structural tokens: accept/reject verdicts), JetLexemes "
+             "(lexeme-class sequences per keyword context), JetLexProc (lexer goroutine / parser channel protocol, TLC liveness: "
+             "no deadlock, parser returns, no goroutine left behind); every enumerated source parsed by the real Set.Parse and "
+             "Set.GetTemplate in an isolated worker process with a deadline and a goroutine count",
+   text="TLC enumerates all structural token sequences up to the bound (including unterminated action, comment and string "
+        "literal, missing and surplus end, misplaced extends/import) with the acceptor's verdict, and all short lexeme-class "
+        "sequences in every keyword context (no verdict: totality). The real parser must agree with the verdict, must return a "
+        "template xor an error naming the template and a line of the source for every input and every truncation, through "
+        "Parse and through the loader (twice, so a failed parse is not answered from the cache); a worker process observes "
+        "crashes of the lexer goroutine, hangs and leaked goroutines. The protocol model shows the draining parser cannot "
+        "deadlock or leak and that the non-draining runtime-error path does.",
+   design_ref="DESIGN.md §5 C02", note=NOTE_TRUST + " 'Never hangs' is a 5 s deadline per parse; goroutine counts are polled for 1 s. The lexer/parser traces are not bound to JetLexProc by hooks (observed through goroutine counts instead)."),
  "C03": dict(
    technique="TLA+ JetLex (denotational contract Rendered(input) over byte strings, parametric in action/comment delimiters, with "
              "trim markers, comments and leading import clauses) enumerated exhaustively by TLC (all byte strings / all token "
